@@ -24,7 +24,7 @@ From Coq Require Import List NArith Bool Arith Permutation SetoidList Relations.
 From SK Require Import lib.LGraph lib.Mono model.C06_Model lib.C06_Spec
   proof.C06_All proof.C06_Comp proof.C06_Comps proof.C06_CompSem proof.C06_CompNoDup proof.C06_Prefilter proof.C06_Table proof.C06_Api proof.C06_Main
   model.C06_Attrs lib.C06_SelSpec proof.C06_Attrs proof.C06_AttrsSpec proof.C06_AttrsEx
-  model.C06_Trace proof.C06_Trace proof.C06_TraceEx proof.C06_AttrsComp.
+  model.C06_Trace proof.C06_Trace proof.C06_TraceEx proof.C06_AttrsComp model.C06_Hist proof.C06_Hist lib.C06_TraceSpec proof.C06_TracePer proof.C06_HistEdits proof.C06_Iso proof.C06_IsoCount proof.C06_AttrsUnused lib.C06_HistSpec proof.C06_HistFrame.
 Import ListNotations.
 
 (** ** 0. What the specification predicates say, written out *)
@@ -479,3 +479,248 @@ Theorem C06_sel_bt_spec : forall (na ea : list N) (strict : bool) (H P : rgraph)
   end.
 Proof. exact sel_bt_spec. Qed.
 Print Assumptions C06_sel_bt_spec.
+
+(** ** 9. Histories (model/C06_Hist.v): the caller's two graph objects as state.  [run_history] - what the
+    correspondence evaluates on the history populations since round 5 - carries the state through the
+    script itself: in-place edits with networkx semantics ([apply_edit]), searches on the current state
+    (arguments optionally swapped), caller-side mutations of earlier results.  The implementation runs the
+    same script on ONE engine object and ONE pair of networkx objects; components, pre-filter verdict,
+    result and VF2 calls of every search step are compared. *)
+
+(** everything a search step answers (flags, components, pre-filter verdict, result, VF2 calls) is a
+    function of the projections of the two objects onto the selections of that step *)
+Theorem C06_hist_reads_projection : forall (na ea : list N) (H H' P P' : rgraph) (cfgs : list cfg),
+  project na ea H = project na ea H' -> project na ea P = project na ea P' ->
+  run_tr_set na ea H' P' cfgs = run_tr_set na ea H P cfgs.
+Proof. exact run_tr_set_reads_projection. Qed.
+Print Assumptions C06_hist_reads_projection.
+
+(** hence an in-place edit of an attribute that the next search does not select (and that is not
+    hcount) - set or deleted on a node, set on an edge, on either object - does not change the answer of
+    that search ... *)
+Theorem C06_hist_edit_invisible : forall (na ea : list N) (host_side swap : bool) (c : cfg) (H P : rgraph) (rest : list hstep),
+  (forall u k v n, ~ In k na -> k <> HCOUNT_KEY ->
+     hd_error (run_hist H P (HEdit host_side (ESetNodeAttr u k v n) :: HSearch swap na ea c :: rest)) =
+     hd_error (run_hist H P (HSearch swap na ea c :: rest))) /\
+  (forall u k, ~ In k na -> k <> HCOUNT_KEY ->
+     hd_error (run_hist H P (HEdit host_side (EDelNodeAttr u k) :: HSearch swap na ea c :: rest)) =
+     hd_error (run_hist H P (HSearch swap na ea c :: rest))) /\
+  (forall a b k v, ~ In k ea ->
+     hd_error (run_hist H P (HEdit host_side (ESetEdgeAttr a b k v) :: HSearch swap na ea c :: rest)) =
+     hd_error (run_hist H P (HSearch swap na ea c :: rest))).
+Proof.
+  exact (fun na ea hs sw c H P rest =>
+    conj (fun u k v n Hn Hk => hist_edit_invisible na ea (ESetNodeAttr u k v n) hs sw c H P rest (conj Hn Hk))
+   (conj (fun u k Hn Hk => hist_edit_invisible na ea (EDelNodeAttr u k) hs sw c H P rest (conj Hn Hk))
+         (fun a b k v Hn => hist_edit_invisible na ea (ESetEdgeAttr a b k v) hs sw c H P rest Hn))).
+Qed.
+Print Assumptions C06_hist_edit_invisible.
+
+(** ... while results are values and searches do not change the state: mutating an earlier result is a
+    no-op, and a repeated request is answered from the current state again (examples
+    [ex_hist_bond_moved], [ex_hist_edit_seen] of proof/C06_Hist.v: an edit of a selected attribute, or a
+    bond moved in place with node and edge counts unchanged, IS seen by the next search) *)
+Theorem C06_hist_results_are_values : forall (H P : rgraph) (swap : bool) (na ea : list N) (c : cfg) (rest : list hstep),
+  run_hist H P (HMutateResult :: rest) = run_hist H P rest /\
+  run_hist H P (HSearch swap na ea c :: HSearch swap na ea c :: rest) =
+  (if swap then run_tr_set na ea P H [c] else run_tr_set na ea H P [c]) :: run_hist H P (HSearch swap na ea c :: rest).
+Proof. exact (fun H P swap na ea c rest => conj (hist_mutate_result_noop H P rest) (hist_search_pure swap na ea c H P rest)). Qed.
+Print Assumptions C06_hist_results_are_values.
+
+(** ** 10. The per-component embedding lists from the trace: the list the component-aware search
+    collects for one pattern component ([per_cc[j]]: pairs of host-component index and embedding) is the
+    concatenation, over the VF2 calls made for that component, of the pulled prefix of each enumeration
+    ([pulled_items], lib/C06_TraceSpec.v) - so the compared trace together with the recorded
+    enumerations determines this intermediate value *)
+Theorem C06_per_cc_from_trace : forall (enum : list N -> list N -> list mapping) (cap thr : N) (pc : list N)
+                                       (cands : list (nat * list N)) (maps : list (nat * mapping)),
+  cc_outer enum cap thr pc cands [] 0%N = Some maps ->
+  maps = pulled_items enum pc cands (cc_outer_calls enum cap thr pc cands 0%N).
+Proof. exact per_cc_from_calls. Qed.
+Print Assumptions C06_per_cc_from_trace.
+
+(** ** 11. What the in-place edits do (networkx semantics, pointwise; [apply_edit] of model/C06_Hist.v is
+    what [run_history] applies to the state and what the implementation's networkx objects are compared
+    with at every search step) *)
+
+(** [g.nodes[u][k] = v]: the entry has the new value, every other entry of every dictionary, the numeric
+    hcounts (unless the name is "hcount"), the node list and the edges are unchanged *)
+Theorem C06_edit_set_node_attr : forall (g : rgraph) (u k v n : N),
+  let g' := apply_edit (ESetNodeAttr u k v n) g in
+  node_ids g' = node_ids g /\ gedges g' = gedges g /\
+  (In u (node_ids g) -> aget k (fst (rlab g' u)) = v) /\
+  (forall x k', x <> u \/ k' <> k -> aget k' (fst (rlab g' x)) = aget k' (fst (rlab g x))) /\
+  (forall x, x <> u \/ k <> HCOUNT_KEY -> hc (rlab g' x) = hc (rlab g x)) /\
+  (In u (node_ids g) -> k = HCOUNT_KEY -> hc (rlab g' u) = n).
+Proof. exact set_node_attr_spec. Qed.
+Print Assumptions C06_edit_set_node_attr.
+
+(** [g.remove_edge(a, b)] / [g.add_edge(a, b, **d)] (two existing nodes, not joined yet): exactly that
+    pair changes, the nodes stay, the edge count goes down (by at most the entries of that pair) / up by one *)
+Theorem C06_edit_bonds : forall (g : rgraph) (a b : N) (d : rattrs),
+  (let g' := apply_edit (ERemoveEdge a b) g in
+   gnodes g' = gnodes g /\ LGraph.adj g' a b = None /\
+   (forall x y, ~ ((x = a /\ y = b) \/ (x = b /\ y = a)) -> LGraph.adj g' x y = LGraph.adj g x y) /\
+   length (gedges g') <= length (gedges g)) /\
+  (LGraph.adj g a b = None -> In a (node_ids g) -> In b (node_ids g) ->
+   let g' := apply_edit (EAddEdge a b d) g in
+   gnodes g' = gnodes g /\ LGraph.adj g' a b = Some d /\
+   (forall x y, ~ ((x = a /\ y = b) \/ (x = b /\ y = a)) -> LGraph.adj g' x y = LGraph.adj g x y) /\
+   length (gedges g') = S (length (gedges g))).
+Proof. exact (fun g a b d => conj (remove_edge_spec g a b) (add_edge_spec g a b d)). Qed.
+Print Assumptions C06_edit_bonds.
+
+(** ** 12. Presentations: renaming node ids (bijection [f] with inverse [f'] between the node lists) and
+    re-ordering the node / edge lists changes neither the labels nor the bonds ([presents], written out
+    below).  The matches of (H, P) then correspond, through the renamings, to those of (H', P') - this is
+    what justifies running ONE presentation per isomorphism class in the exhaustive populations. *)
+Theorem C06_presents_meaning : forall (f f' : N -> N) (G G' : graph),
+  presents f f' G G' <->
+  (forall u, In u (node_ids G) -> In (f u) (node_ids G')) /\
+  (forall u', In u' (node_ids G') -> In (f' u') (node_ids G)) /\
+  (forall u, In u (node_ids G) -> f' (f u) = u) /\
+  (forall u', In u' (node_ids G') -> f (f' u') = u') /\
+  (forall u, In u (node_ids G) -> lab G' (f u) = lab G u) /\
+  (forall u v, In u (node_ids G) -> In v (node_ids G) -> LGraph.adj G' (f u) (f v) = LGraph.adj G u v).
+Proof.
+  intros f f' G G'. split.
+  - intros [A B C D E F]. repeat split; assumption.
+  - intros (A & B & C & D & E & F). constructor; assumption.
+Qed.
+Print Assumptions C06_presents_meaning.
+
+(** the specification is invariant: a monomorphism of (H, P), renamed, is a monomorphism of (H', P') *)
+Theorem C06_mono_presentation_invariant : forall (f f' g g' : N -> N) (H H' P P' : graph) (m : mapping),
+  presents f f' H H' -> presents g g' P P' -> is_mono H P m ->
+  is_mono H' P' (map (fun ph => (g (fst ph), f (snd ph))) m).
+Proof. exact is_mono_presents. Qed.
+Print Assumptions C06_mono_presentation_invariant.
+
+(** exhaustive strategy, no limits: every result for (H, P), renamed, is (as a set of pairs) a result for
+    (H', P') - and conversely, by the same statement for the inverse renamings *)
+Theorem C06_all_presentation_invariant :
+  forall (enum enum' : list N -> list N -> list mapping) (T T' : N) (strict strict' : bool)
+         (f f' g g' : N -> N) (H H' P P' : graph),
+  presents f f' H H' -> presents g g' P P' ->
+  vf2_contract enum H P (node_ids H) (node_ids P) -> vf2_contract enum' H' P' (node_ids H') (node_ids P') ->
+  (lenN (enum (node_ids H) (node_ids P)) <= T)%N -> (lenN (enum' (node_ids H') (node_ids P')) <= T')%N ->
+  forall m, In m (find enum (Cfg 0 0 T strict false) H P) ->
+  exists m', In m' (find enum' (Cfg 0 0 T' strict' false) H' P') /\
+             Permutation (map (fun ph => (g (fst ph), f (snd ph))) m) m'.
+Proof. exact all_presentation_invariant. Qed.
+Print Assumptions C06_all_presentation_invariant.
+
+(** component-aware strategy, no limits: the same; inside, two presentations have the same number of
+    components ([comps_count_presents]), so both fall into the same case of C06_comp_spec *)
+Theorem C06_comp_presentation_invariant :
+  forall (enum enum' : list N -> list N -> list mapping) (strict : bool) (f f' g g' : N -> N) (H H' P P' : graph),
+  gwf H -> gwf P -> gwf H' -> gwf P' ->
+  presents f f' H H' -> presents g g' P P' ->
+  oracle_ok enum H P -> oracle_ok enum' H' P' ->
+  exists T0 : N, forall T : N, (T0 <= T)%N ->
+  forall m, In m (find enum (Cfg 1 0 T strict false) H P) ->
+  exists m', In m' (find enum' (Cfg 1 0 T strict false) H' P') /\
+             Permutation (map (fun ph => (g (fst ph), f (snd ph))) m) m'.
+Proof. exact comp_presentation_invariant. Qed.
+Print Assumptions C06_comp_presentation_invariant.
+
+Theorem C06_component_count_invariant : forall (f f' : N -> N) (G G' : graph),
+  gwf G -> gwf G' -> presents f f' G G' -> length (comps G') = length (comps G).
+Proof. exact comps_count_presents. Qed.
+Print Assumptions C06_component_count_invariant.
+
+(** ** 13. Selections extended by names that no node (edge) of either graph carries: [dict.get] gives None on
+    both sides, so such a name can be added to or dropped from [node_attrs] ([edge_attrs]) without changing
+    any answer - for every configuration *)
+Theorem C06_sel_unused_name : forall (k : N) (na ea : list N) (H P : rgraph) (c : cfg),
+  ((forall u l, label H u = Some l -> aget k (fst l) = 0%N) ->
+   (forall u l, label P u = Some l -> aget k (fst l) = 0%N) ->
+   find_sel (monos_sel (k :: na) ea H P) c (k :: na) ea H P = find_sel (monos_sel na ea H P) c na ea H P) /\
+  ((forall u v d, LGraph.adj H u v = Some d -> aget k d = 0%N) ->
+   (forall u v d, LGraph.adj P u v = Some d -> aget k d = 0%N) ->
+   find_sel (monos_sel na (k :: ea) H P) c na (k :: ea) H P = find_sel (monos_sel na ea H P) c na ea H P).
+Proof.
+  exact (fun k na ea H P c => conj (fun A B => sel_unused_node_name k na ea H P A B c)
+                                   (fun A B => sel_unused_edge_name k na ea H P A B c)).
+Qed.
+Print Assumptions C06_sel_unused_name.
+
+(** ** 14. The call with EVERY option omitted, on the caller's graphs (what [run_sel_api] evaluates for such a
+    call; threshold 5000 not binding): [] as soon as the host has more components than a non-empty pattern,
+    all monomorphisms when it has fewer, the separating ones otherwise *)
+Theorem C06_sel_default_call : forall (na ea : list N) (H P : rgraph),
+  (NoDup (node_ids H) /\ forall a b x, In (a, b, x) (gedges H) -> In a (node_ids H) /\ In b (node_ids H) /\ a <> b) ->
+  (NoDup (node_ids P) /\ forall a b x, In (a, b, x) (gedges P) -> In a (node_ids P) /\ In b (node_ids P) /\ a <> b) ->
+  (forall T', (5000 <= T')%N ->
+     find_sel (monos_sel na ea H P) (Cfg 1 0 T' true false) na ea H P =
+     find_sel (monos_sel na ea H P) (Cfg 1 0 5000 true false) na ea H P) ->
+  exists R, find_api (monos_sel na ea H P) SDefault None None None None (project na ea H) (project na ea P) = Result R /\
+  let hcc := length (comps (project na ea H)) in
+  let pcc := length (comps (project na ea P)) in
+  let conn (g : rgraph) := clos_refl_trans N (fun a b => LGraph.adj g a b <> None) in
+  let sep (m : mapping) := forall p h p' h', In (p, h) m -> In (p', h') m -> conn H h h' -> conn P p p' in
+  NoDupA (@Permutation (N * N)) R /\
+  if (0 <? pcc) && (pcc <? hcc) then R = []
+  else if hcc <? pcc then
+    (forall m, In m R -> is_mono_sel na ea H P m) /\
+    (forall m, is_mono_sel na ea H P m -> exists m', In m' R /\ Permutation m m')
+  else
+    (forall m, In m R -> is_mono_sel na ea H P m /\ sep m) /\
+    (forall m, is_mono_sel na ea H P m -> sep m -> exists m', In m' R /\ Permutation m m').
+Proof. exact sel_default_call. Qed.
+Print Assumptions C06_sel_default_call.
+
+(** ** 15. Non-interference over whole histories.  [agree_off k g1 g2] (lib/C06_HistSpec.v, written out in
+    [C06_agree_off_meaning]): two states of a graph object that differ at most in the values stored under the
+    node-attribute name [k].  Running the SAME script - any edits, of [k] or of anything else, on either object;
+    result mutations; searches with arguments swapped or not - from two pairs of states that agree off [k]
+    gives identical answers at every search that does not select [k]. *)
+Theorem C06_agree_off_meaning : forall (k : N) (g1 g2 : rgraph),
+  agree_off k g1 g2 <->
+  gedges g1 = gedges g2 /\
+  Forall2 (fun p1 p2 : N * rnlab =>
+             fst p1 = fst p2 /\ snd (snd p1) = snd (snd p2) /\
+             NoDup (map fst (fst (snd p1))) /\ NoDup (map fst (fst (snd p2))) /\
+             forall k', k' <> k -> aget k' (fst (snd p1)) = aget k' (fst (snd p2)))
+          (gnodes g1) (gnodes g2).
+Proof. intros k g1 g2. unfold agree_off, dict_ok. reflexivity. Qed.
+Print Assumptions C06_agree_off_meaning.
+
+Theorem C06_hist_noninterference : forall (k : N) (steps : list hstep) (H1 H2 P1 P2 : rgraph),
+  agree_off k H1 H2 -> agree_off k P1 P2 ->
+  Forall (fun s => match s with
+                   | HEdit _ (EAddNode _ l) => NoDup (map fst (fst l))     (* a created node has one entry per key *)
+                   | HEdit _ _ => True
+                   | HSearch _ na _ _ => ~ In k na
+                   | HMutateResult => True
+                   end) steps ->
+  run_hist H1 P1 steps = run_hist H2 P2 steps.
+Proof. exact hist_noninterference. Qed.
+Print Assumptions C06_hist_noninterference.
+
+(** the instance the histories exercise: an in-place edit [g.nodes[u][k] = v] ([k] not "hcount") of either
+    object is never seen by a script in which no search selects [k] *)
+Theorem C06_hist_edit_never_seen : forall (k u v n : N) (host_side : bool) (H P : rgraph) (steps : list hstep),
+  k <> HCOUNT_KEY ->
+  Forall (fun p : N * rnlab => NoDup (map fst (fst (snd p)))) (gnodes H) ->
+  Forall (fun p : N * rnlab => NoDup (map fst (fst (snd p)))) (gnodes P) ->
+  Forall (fun s => match s with
+                   | HEdit _ (EAddNode _ l) => NoDup (map fst (fst l))
+                   | HEdit _ _ => True
+                   | HSearch _ na _ _ => ~ In k na
+                   | HMutateResult => True
+                   end) steps ->
+  run_hist H P (HEdit host_side (ESetNodeAttr u k v n) :: steps) = run_hist H P steps.
+Proof. exact hist_edit_never_seen. Qed.
+Print Assumptions C06_hist_edit_never_seen.
+
+(** the first entry of every compared history observable is the flag below; when it is true (the harness
+    compares it with the constant true) the dictionaries of the two initial objects and of every created node
+    have one entry per key - the well-formedness premises of the two theorems above *)
+Theorem C06_hist_premise_monitor : forall (H P : rgraph) (steps : list hstep),
+  state_okb H && state_okb P && forallb step_okb steps = true ->
+  Forall (fun p : N * rnlab => NoDup (map fst (fst (snd p)))) (gnodes H) /\
+  Forall (fun p : N * rnlab => NoDup (map fst (fst (snd p)))) (gnodes P) /\
+  Forall (fun s => match s with HEdit _ (EAddNode _ l) => NoDup (map fst (fst l)) | _ => True end) steps.
+Proof. exact hist_monitor. Qed.
+Print Assumptions C06_hist_premise_monitor.
